@@ -695,7 +695,7 @@ class DocTriples(Space):
 
 def spaces(tier):
     if tier == "quick":
-        return [FillCore(6, 4, 3), Markers(3, 6), Atomic(2, [0, 1, 5, 8, 9, 10, 12, 14, 20]), FillText(9, 3),
-                Sentence(2, [24, 30], [(0, 0), (2, 2), (6, 4)]), DocTriples(1, 2, [0, 1, 6, 12])]
+        return [FillCore(7, 4, 4), Markers(3, 7), Atomic(3, [0, 1, 5, 8, 9, 10, 12, 14, 20]), FillText(10, 3),
+                Sentence(3, [22, 24, 30], [(0, 0), (2, 2), (6, 4)]), DocTriples(1, 3, [0, 1, 6, 9, 12])]
     return [FillCore(8, 5, 4), Markers(4, 7), Atomic(3, [0, 1, 5, 8, 9, 10, 12, 14, 17, 20, 24, 30]), FillText(11, 4),
             Sentence(3, [22, 24, 30, 40], [(0, 0), (2, 2), (6, 4)]), DocTriples(2, 3, [0, 1, 6, 9, 12, 20])]
